@@ -161,6 +161,8 @@ def check(ctx, report):
         if not (isinstance(se, ast.Constant) and se.value is True):
             report.add('C18.R2', nvl.construct + '@skip-empty', 'empty list elements must be skipped (skip_empty=True)')
     whitespace_tabulation(ctx, report, spec)
+    from ..textlists import string_array_table
+    string_array_table(ctx, report, 'C18.R2', 'http')
     # sibling agreement on the value terminator
     terms = {}
     for cname in ('HttpHeaderFieldParsedBase', 'HttpHeaderFieldUnparsed'):
@@ -193,17 +195,19 @@ def check(ctx, report):
         report.error('C18.R3: FieldValueMultiple._parse_basic_params vanished')
     else:
         report.touch(fm)
-        src = ast.unparse(fm.node)
-        if '_check_name(component)' not in src:
-            report.add('C18.R3', fm.construct + '@by-name', 'components are not matched through _check_name')
         for n in ast.walk(fm.node):
             if isinstance(n, ast.Subscript) and ast.unparse(n.value) == 'components' and isinstance(n.slice, ast.Constant) and isinstance(n.slice.value, int):
                 report.add('C18.R3', fm.construct + '@positional', 'a component is taken by position (%s)' % ast.unparse(n))
             if isinstance(n, ast.Call) and isinstance(n.func, ast.Name) and n.func.id == 'enumerate' and 'components' in ast.unparse(n):
                 report.add('C18.R3', fm.construct + '@positional', 'components are enumerated by position')
         ex = model.cls('FieldValueMultiple').methods.get('_parse_extensions')
-        if ex is None or 'if extension and components' not in ast.unparse(ex.node):
+        if ex is None:
             report.add('C18.R3', fm.construct + '@unknown', 'unknown components must be ignored unless an extension attribute exists')
+        else:
+            unknown_directives(report, ex)
+    name_value_composers(ctx, report)
+    component_matching(ctx, report)
+    repeatable_separators(ctx, report)
     report.floor('C18.R1', 24, 'named components')
 
 
@@ -282,3 +286,208 @@ def whitespace_tabulation(ctx, report, spec):
                    '%d whitespace runs before a separator are not stripped completely, e.g. %r: %s (item is %d bytes)' % (len(bad), w.decode(), what, len(item)))
     else:
         report.sample({'rule': 'C18.R2', 'whitespace_runs_tabulated': sum(len(ws) ** k for k in range(8 if ctx.thorough else 5)), 'alphabet': ws})
+
+
+# ---- name[=value] composers ------------------------------------------------------------------------------------------
+
+class _TextComposer:
+    pass
+
+
+def name_value_composers(ctx, report, rule='C18.R4'):
+    """NameValuePair.compose and NameValuePairList.compose evaluated (sa.miniexec) over the four kinds of value the parser
+    distinguishes - absent (None), empty string, plain, quoted - and compared with the grammar: ``name`` for an absent
+    value, ``name=`` for the empty one, ``name=value`` / ``name="value"`` otherwise; list items joined by separator + SP.
+    A composer that writes ``name=`` for None (or ``name`` for '') produces bytes that parse back to a different object."""
+    import collections
+    from ..miniexec import Evaluator, Native, Obj, Raised, Unsupported
+    model = ctx.model
+    report.rule(rule, 'name[=value] composers: absent, empty, plain and quoted values are written as the grammar says')
+
+    class Composer(Native):
+        def __init__(self):
+            self.text = ''
+
+        def compose_string(self, v):
+            self.text += v
+
+        def compose_separator(self, v):
+            self.text += v
+
+        @property
+        def composed(self):
+            return self.text.encode('ascii')
+
+        @property
+        def composed_bytes(self):
+            return self.text.encode('ascii')
+
+    def hook(n, ev):
+        if ast.unparse(n.func) == 'ComposerText':
+            return Composer()
+        if ast.unparse(n.func) == 'len' and n.args:
+            v = ev.ev(n.args[0])
+            return len(v)
+        return NotImplemented
+    pair = model.try_cls('NameValuePair')
+    lst = model.try_cls('NameValuePairList')
+    if pair is None or lst is None or 'compose' not in pair.methods or 'compose' not in lst.methods:
+        report.error('%s: NameValuePair / NameValuePairList composers vanished' % rule)
+        return
+    fp, fl = pair.methods['compose'], lst.methods['compose']
+    report.touch(fp)
+    report.touch(fl)
+    cases = [(None, False, b'key'), ('', False, b'key='), ('v', False, b'key=v'), ('a b', True, b'key="a b"'), ('', True, b'key=""'), (None, True, b'key')]
+    try:
+        for value, quoted, want in cases:
+            report.count(rule)
+            me = Obj(name='key', value=value, quoted=quoted, get_separator=lambda: '=')
+            got = Evaluator({'self': me}, hook, None).function(fp.node)
+            if bytes(got) != want:
+                report.add(rule, '%s@value[%s]' % (fp.construct, 'absent' if value is None else ('empty' if value == '' else 'present')),
+                           'a pair with value %r%s is composed as %r, the grammar (and the parser) expect %r' % (value, ' (quoted)' if quoted else '', bytes(got), want))
+        for sep in (';', ','):
+            for values, want in (([('a', None)], 'a'), ([('a', '')], 'a='), ([('a', '1'), ('b', None), ('c', '')], 'a=1%s b%s c=' % (sep, sep)), ([], '')):
+                report.count(rule)
+                me = Obj(value=collections.OrderedDict(values), get_separator=lambda sep=sep: sep)
+                got = Evaluator({'self': me}, hook, None).function(fl.node)
+                if bytes(got) != want.encode('ascii'):
+                    kinds = [('absent' if v is None else 'empty' if v == '' else 'present') for _, v in values]
+                    report.add(rule, '%s@value[%s]' % (fl.construct, '/'.join(sorted(set(kinds))) or 'none'),
+                               'the list %r is composed as %r, the grammar (and the parser) expect %r' % (values, bytes(got), want.encode('ascii')))
+                    break
+    except (Unsupported, Raised) as e:
+        report.add(rule, fp.construct + '@tabulation', 'the name=value composers left the subset the tabulation understands: %s' % e)
+
+
+def component_matching(ctx, report, rule='C18.R3'):
+    """FieldValueMultiple._parse_basic_params evaluated (sa.miniexec) with model components: a directive given without a
+    value (None), with an empty value ('') and with a value must reach the component parser as ``name``, ``name=`` and
+    ``name=value``; a directive spelled in another case is matched through _check_name and filed under its canonical name;
+    an absent directive takes the attribute default; an absent mandatory one is InvalidValue"""
+    import collections
+    from ..miniexec import Evaluator, Native, NativeError, Obj, Raised, Unsupported
+    model = ctx.model
+    fm = model.try_cls('FieldValueMultiple')
+    f = fm.methods.get('_parse_basic_params') if fm is not None else None
+    if f is None:
+        return
+
+    class InvalidType(NativeError):
+        pass
+
+    class Component(Native):
+        def __init__(self, canonical):
+            self.canonical = canonical
+            self.seen = None
+
+        def _check_name(self, name):
+            if name.lower() != self.canonical.lower():
+                raise InvalidType()
+
+        def get_canonical_name(self):
+            return self.canonical
+
+        def parse_exact_size(self, data):
+            self.seen = bytes(data)
+            return ('parsed', self.canonical, bytes(data))
+    NOTHING = Obj(name='NOTHING')
+
+    def hook(n, ev):
+        d = ast.unparse(n.func)
+        if d == 'six.ensure_binary':
+            v = ev.ev(n.args[0])
+            return v.encode('ascii') if isinstance(v, str) else bytes(v)
+        if d in ('InvalidValue', 'InvalidType'):
+            return NotImplemented
+        return NotImplemented
+
+    def names(name):
+        if name == 'attr.NOTHING':
+            return NOTHING
+        if name == 'cls':
+            return 'cls'
+        raise Unsupported('free name %s' % name)
+    params = [a.arg for a in f.node.args.args if a.arg != 'cls']
+    cases = [
+        ('Report-URI', None, b'report-uri', 'a directive without a value'),
+        ('report-uri', '', b'report-uri=', 'a directive with an empty value'),
+        ('REPORT-URI', 'x', b'report-uri=x', 'a directive with a value, upper-case name'),
+    ]
+    try:
+        for spelled, value, want, what in cases:
+            report.count(rule)
+            comp = Component('report-uri')
+            other = Component('preload')
+            a2c = {'report_uri': comp, 'preload': other}
+            fields = collections.OrderedDict([('report_uri', Obj(default=None)), ('preload', Obj(default=False))])
+            components = collections.OrderedDict([(spelled, value), ('x-unknown', '1')])
+            out = {}
+            Evaluator(dict(zip(params, [a2c, fields, components, out])), hook, names).function(f.node)
+            seen = comp.seen.lower() if (value is None and comp.seen is not None) else comp.seen      # a bare name is re-checked by the component
+            if seen != want:
+                report.add(rule, '%s@component[%s]' % (f.construct, 'absent-value' if value is None else ('empty-value' if value == '' else 'value')),
+                           '%s (%r: %r) reaches the component parser as %r, expected %r' % (what, spelled, value, comp.seen, want))
+            if out.get('preload') is not False or 'x-unknown' not in components:
+                report.add(rule, f.construct + '@default', 'an absent directive does not take its default / an unknown directive is consumed')
+        report.count(rule)
+        try:
+            Evaluator(dict(zip(params, [{'max_age': Component('max-age')}, collections.OrderedDict([('max_age', Obj(default=NOTHING))]),
+                                        collections.OrderedDict(), {}])), hook, names).function(f.node)
+            report.add(rule, f.construct + '@mandatory', 'an absent mandatory directive is accepted')
+        except Raised as e:
+            if 'InvalidValue' not in e.what:
+                report.add(rule, f.construct + '@mandatory', 'an absent mandatory directive raises %s' % e.what)
+    except (Unsupported, Raised) as e:
+        report.add(rule, f.construct + '@tabulation', 'the component matcher left the subset the tabulation understands: %s' % e)
+
+
+def unknown_directives(report, ex):
+    """_parse_extensions evaluated: without an extension attribute the unknown directives are ignored (no parameter is
+    set, nothing raises); with one, they are handed to it"""
+    import collections
+    from ..miniexec import Evaluator, Obj, Raised, Unsupported
+    params = [a.arg for a in ex.node.args.args if a.arg != 'cls']
+    try:
+        out = {}
+        left = collections.OrderedDict([('x-unknown', '1')])
+        Evaluator(dict(zip(params, [{}, None, left, out])), None, None).function(ex.node)
+        if out:
+            report.add('C18.R3', ex.construct + '@unknown', 'unknown directives set a parameter although the field has no extension attribute')
+        out = {}
+        Evaluator(dict(zip(params, [{'extensions': lambda c: ('wrapped', dict(c))}, ('extensions', Obj(default=None)), left, out])), lambda n, ev: (
+            ('wrapped', dict(ev.ev(n.args[0]))) if isinstance(n.func, ast.Subscript) else NotImplemented), None).function(ex.node)
+        if out.get('extensions') != ('wrapped', {'x-unknown': '1'}):
+            report.add('C18.R3', ex.construct + '@extension', 'unknown directives are not handed to the extension attribute (%r)' % (out,))
+        out = {}
+        Evaluator(dict(zip(params, [{}, ('extensions', Obj(default=None)), collections.OrderedDict(), out])), None, None).function(ex.node)
+        if out:
+            report.add('C18.R3', ex.construct + '@extension', 'an empty remainder still sets the extension attribute')
+    except Raised as e:
+        report.add('C18.R3', ex.construct + '@unknown', 'unknown directives make the parser fail (%s): the presence of an unknown directive must not change what is parsed' % e.what)
+    except Unsupported as e:
+        report.add('C18.R3', ex.construct + '@tabulation', '_parse_extensions left the subset the tabulation understands: %s' % e)
+
+
+def repeatable_separators(ctx, report, rule='C18.R5'):
+    """RFC 9110 5.6.1 / RFC 6265 5.2: a recipient ignores empty list elements, i.e. a run of list separators counts as one.
+    Every ``parse_separator`` call of the header / field modules whose separator is a list separator (';' or ',') must
+    leave the run length open (max_length None) - bounding it makes ``a=b;; Secure`` invalid"""
+    model = ctx.model
+    report.rule(rule, 'list separators (; ,) are parsed as runs: empty list elements are ignored')
+    n_sites = 0
+    for f in model.functions():
+        if f.module.external or not f.module.relpath.startswith(('cryptoparser/common/field.py', 'cryptoparser/httpx/')):
+            continue
+        for n in ast.walk(f.node):
+            if isinstance(n, ast.Call) and isinstance(n.func, ast.Attribute) and n.func.attr == 'parse_separator' and n.args and \
+                    isinstance(n.args[0], ast.Constant) and n.args[0].value in (';', ','):
+                n_sites += 1
+                report.count(rule)
+                report.touch(f)
+                mx = n.args[2] if len(n.args) > 2 else next((k.value for k in n.keywords if k.arg == 'max_length'), None)
+                if mx is not None and not (isinstance(mx, ast.Constant) and mx.value is None):
+                    report.add(rule, '%s@separator[%s]' % (f.construct, n.args[0].value),
+                               'the run of %r separators is bounded (max_length=%s): an empty list element at this position is rejected' % (n.args[0].value, ast.unparse(mx)))
+    if n_sites < 1:
+        report.error('%s: no list separator site found (anchor moved)' % rule)
